@@ -153,7 +153,10 @@ impl InFlightRequests {
                     // The deadline was further away than a single timer can span.
                     let timer_span = request_data.beyond_timer.min(MAX_TIMER_SPAN);
                     request_data.beyond_timer -= timer_span;
-                    request_data.timer_deadline = tokio::time::Instant::now() + timer_span;
+                    // Counted from when the previous timer was due rather than from now, so that a
+                    // timer processed late (a stalled process, a stepped clock) does not move
+                    // the deadline.
+                    request_data.timer_deadline += timer_span;
                     request_data.deadline_key = self
                         .deadlines
                         .insert_at(*expired.get_ref(), request_data.timer_deadline);
